@@ -16,9 +16,15 @@
   member the message of `in` names, the entry / annotation order of a policy decoded from JSON and printed as Cedar
   text, the slot order of colliding members of a schema-coerced set.  All five are repaired (the loops now visit
   sorted keys); the model functions sort, the `_partial` theorems are full, the counterexample inputs are
-  regression `example`s.
+  regression `example`s.  A sixth defect of the set printers, found by C13's oracle (`set-hash-collision-order`: the
+  members were written in ascending SLOT order although `NewSet`'s probing wraps around at 2^64, so a set holding e.g.
+  `-1` and `decimal("-0.0001")` — both hash to 2^64-1 — came back from its own JSON with the two members swapped and
+  marshalled differently), is repaired too: `Set.orderedSlots` lists the slots in probing order
+  (`C14_setMarshal_rebuilds`, `C14_setMarshal_roundtrip_stable`).
 -/
 import CedarGoProofs.Lemmas.C14
+import CedarGoProofs.Lemmas.C14SetOrder
+import CedarGoProofs.Lemmas.C11Hash
 import CedarGoProofs.Properties.C20
 namespace CedarGo
 
@@ -235,10 +241,59 @@ theorem C14_marshalByStringKey_canonical (render : String → String) (k₁ k₂
     marshalByStringKey render k₁ = marshalByStringKey render k₂ :=
   C14_encoders_canonical strLe strLe_linOrd render k₁ k₂ hp
 
-/-- `Set.MarshalCedar/JSON` (slot numbers) -/
-theorem C14_marshalSet_canonical (render : Nat → String) (k₁ k₂ : List Nat) (hp : k₁.Perm k₂) :
-    marshalSetOrd render k₁ = marshalSetOrd render k₂ :=
-  C14_encoders_canonical natLe natLe_linOrd render k₁ k₂ hp
+/-- `Set.MarshalCedar/JSON`: the order in which the members are written (`Set.orderedSlots`: sorted slot numbers, the
+    run of slots ending at slot 2^64-1 first if an element wrapped around) is the same for every order in which the Go
+    map yields its entries. -/
+theorem C14_marshalSet_canonical (hash : Value → UInt64) (t₁ t₂ : Table) (hp : t₁.Perm t₂) (hn : (t₁.map (·.1)).Nodup) :
+    marshalSetMembers hash t₁ = marshalSetMembers hash t₂ :=
+  SetOrder.marshalSetMembers_perm_inv hash hp hn
+
+/-- **`NewSet` applied to the members in the order `MarshalJSON/MarshalCedar` write them rebuilds the set slot for slot**
+    (what `Set.UnmarshalJSON` does with the marshalled array): the rebuilt table holds the same (slot, member) pairs.
+    For every hash that respects equality, every collision pattern, and also when `NewSet`'s probing wrapped around from
+    slot 2^64-1 to slot 0 — the case in which the unrepaired printer (ascending slot order) listed a displaced member
+    BEFORE the members that had displaced it, so that the decoded set had them swapped (known finding
+    `set-hash-collision-order`, now fixed). -/
+theorem C14_setMarshal_rebuilds (hash : Value → UInt64) (hr : C11.HashRespectsEq hash) (vs : List Value)
+    (hl : vs.length < 18446744073709551616) :
+    (buildTable hash (marshalSetMembers hash (buildTable hash vs))).Perm (buildTable hash vs) :=
+  (SetOrder.rebuild (C11.foldl_insertV_spec hr vs [] (C11.inv_nil hash) (by simpa using hl)).1).2
+
+/-- … consequently a set decoded from its own encoding marshals to the same member sequence again: the second
+    `Marshal` of a round trip is identical to the first. -/
+theorem C14_setMarshal_roundtrip_stable (hash : Value → UInt64) (hr : C11.HashRespectsEq hash) (vs : List Value)
+    (hl : vs.length < 18446744073709551616) :
+    marshalSetMembers hash (buildTable hash (marshalSetMembers hash (buildTable hash vs))) =
+      marshalSetMembers hash (buildTable hash vs) :=
+  SetOrder.marshal_stable (C11.foldl_insertV_spec hr vs [] (C11.inv_nil hash) (by simpa using hl)).1
+
+/-- the real hash is one of them -/
+example (vs : List Value) (hl : vs.length < 18446744073709551616) :
+    marshalSetMembers goHash (buildTable goHash (marshalSetMembers goHash (buildTable goHash vs))) =
+      marshalSetMembers goHash (buildTable goHash vs) :=
+  C14_setMarshal_roundtrip_stable goHash C11.goHash_respects_eq vs hl
+
+-- regression: the former witness `NewSet(decimal("-0.0001"), -1)` — both members hash to 2^64-1, the second one wraps
+-- around into slot 0.  The unrepaired printer (ascending slots) wrote `-1` first, the decoded set had the two members
+-- in each other's slots and wrote `decimal("-0.0001")` first: the encoding flipped on every round trip …
+example :
+    (marshalSetMembersBySlot (buildTable goHash [.decimal (-1), .long (-1)]) == [.long (-1), .decimal (-1)]) = true ∧
+    (marshalSetMembersBySlot (buildTable goHash [.long (-1), .decimal (-1)]) == [.decimal (-1), .long (-1)]) = true := by
+  constructor <;> decide +kernel
+-- … the repaired one writes the members in probing order, which `NewSet` reproduces
+example :
+    (marshalSetMembers goHash (buildTable goHash [.decimal (-1), .long (-1)]) == [.decimal (-1), .long (-1)]) = true ∧
+    (marshalSetMembers goHash (buildTable goHash [.long (-1), .decimal (-1)]) == [.long (-1), .decimal (-1)]) = true := by
+  constructor <;> decide +kernel
+-- a longer wrapped chain next to unrelated members (hashes 2^64-2, 2^64-1 ×3, 0, 1 ×2)
+example :
+    (marshalSetMembers goHash (buildTable goHash [.long (-2), .long (-1), .duration (-1), .decimal (-1), .long 0, .long 1, .bool true, .long 7]) == [.long (-2), .long (-1), .duration (-1), .decimal (-1), .long 0, .long 1, .bool true, .long 7]) = true := by
+  decide +kernel
+-- without a wrap-around nothing changes: ascending slot order, also when both slot 0 and slot 2^64-1 are occupied
+example :
+    (marshalSetMembers goHash (buildTable goHash [.long (-1), .bool false, .long 5]) == [.bool false, .long 5, .long (-1)]) = true ∧
+    (marshalSetMembersBySlot (buildTable goHash [.long (-1), .bool false, .long 5]) == [.bool false, .long 5, .long (-1)]) = true := by
+  constructor <;> decide +kernel
 
 /-- `Entity.MarshalJSON` (parents by type, then id) -/
 theorem C14_marshalParents_canonical (render : UID → String) (k₁ k₂ : List UID) (hp : k₁.Perm k₂) :
